@@ -515,867 +515,4 @@ example : WF disjointSnap ∧ ((disjointSnap.flatMap Part.elems).map (·.data)).
   unfold PairwiseDisjoint
   decide
 
-
-
-/-! ## 4. TopQueue -/
-
-theorem popMin_none {rev : Bool} {h : List Int} (hn : popMin rev h = none) : h = [] := by
-  cases h with
-  | nil => rfl
-  | cons c cs =>
-    simp only [popMin] at hn
-    split at hn
-    · contradiction
-    · split at hn <;> contradiction
-
-theorem topLt_eq (rev : Bool) : topLt rev = intLt (!rev) := by
-  funext a b; cases rev <;> simp [topLt, intLt]
-
-theorem popMin_spec (rev : Bool) : ∀ (h : List Int) (m : Int) (o : List Int),
-    popMin rev h = some (m, o) → h.Perm (m :: o) ∧ ∀ c ∈ h, topLt rev c m = false := by
-  have sw : StrictWeak (topLt rev) := by rw [topLt_eq]; exact (strictTotal_intLt _).toStrictWeak
-  intro h
-  induction h with
-  | nil => intro m o hp; simp [popMin] at hp
-  | cons c cs ih =>
-    intro m o hp
-    simp only [popMin] at hp
-    split at hp
-    · rename_i hnone
-      have := popMin_none hnone
-      subst this
-      cases hp
-      exact ⟨List.Perm.refl _, by intro c' hc'; simp at hc'; subst hc'; exact sw.irrefl _⟩
-    · rename_i m' o' hsome
-      have ⟨hperm, hmin⟩ := ih m' o' hsome
-      split at hp
-      · rename_i hlt
-        cases hp
-        refine ⟨(List.Perm.cons c hperm).trans (List.Perm.swap _ _ _), ?_⟩
-        intro c' hc'
-        rcases List.mem_cons.mp hc' with rfl | hc'
-        · exact sw.asymm hlt
-        · exact hmin c' hc'
-      · rename_i hlt
-        cases hp
-        refine ⟨List.Perm.refl _, ?_⟩
-        intro c' hc'
-        rcases List.mem_cons.mp hc' with rfl | hc'
-        · exact sw.irrefl _
-        · exact sw.nlt_trans (by simpa using hlt) (hmin c' hc')
-
-/-- `a` ranks at least as high as `b` in the queue's order (top: `b ≤ a`, bottom: `a ≤ b`) -/
-def topGe (rev : Bool) (a b : Int) : Prop := if rev then a ≤ b else b ≤ a
-
-/-- the heap holds a top-`n` selection of `xs`: everything left out ranks no higher than anything kept -/
-def IsTopN (n : Nat) (rev : Bool) (xs h : List Int) : Prop :=
-  h.length = min n xs.length ∧ ∃ rest, xs.Perm (h ++ rest) ∧ ∀ a ∈ h, ∀ b ∈ rest, topGe rev a b
-
-theorem topInsert_spec (n : Nat) (rev : Bool) (xs h : List Int) (x : Int) (inv : IsTopN n rev xs h)
-    {a : Bool} {h' : List Int} (hi : topInsert n rev h x = some (a, h')) : IsTopN n rev (xs ++ [x]) h' := by
-  obtain ⟨hlen, rest, hperm, hge⟩ := inv
-  have hxl := hperm.length_eq
-  simp only [List.length_append] at hxl
-  unfold topInsert at hi
-  split at hi
-  · -- not full
-    rename_i hlt
-    cases hi
-    have hrest : rest = [] := by
-      apply List.length_eq_zero_iff.mp
-      omega
-    subst hrest
-    refine ⟨by simp only [List.length_append, List.length_singleton]; omega, [], ?_, by simp⟩
-    simp only [List.append_nil] at hperm ⊢
-    exact List.Perm.append hperm (List.Perm.refl _)
-  · rename_i hfull
-    split at hi
-    · contradiction
-    · rename_i m o hpop
-      have ⟨hp, hmin⟩ := popMin_spec rev h m o hpop
-      have hol : o.length + 1 = h.length := by have := hp.length_eq; simp at this; omega
-      have hmh : m ∈ h := (hp.mem_iff).mpr List.mem_cons_self
-      have hoh : ∀ c ∈ o, c ∈ h := fun c hc => (hp.mem_iff).mpr (List.mem_cons_of_mem _ hc)
-      have hm_le : ∀ c ∈ h, topGe rev c m := by
-        intro c hc
-        have := hmin c hc
-        cases rev <;> simp [topLt, topGe] at this ⊢ <;> omega
-      cases hrej : topRejects rev m x with
-      | true =>
-        -- rejected: x ranks strictly below the heap minimum
-        simp only [hrej, if_true] at hi
-        cases hi
-        refine ⟨by simp only [List.length_append, List.length_singleton]; omega, x :: rest, ?_, ?_⟩
-        · have h1 : (o ++ [m]).Perm h := (List.perm_append_comm.trans hp.symm)
-          have : (xs ++ [x]).Perm (h ++ rest ++ [x]) := List.Perm.append hperm (List.Perm.refl _)
-          refine this.trans ?_
-          rw [List.append_assoc]
-          refine List.Perm.append h1.symm ?_
-          exact List.perm_append_comm
-        · intro a ha b hb
-          have ha' : a ∈ h := by
-            rcases List.mem_append.mp ha with ha | ha
-            · exact hoh a ha
-            · simp at ha; subst ha; exact hmh
-          rcases List.mem_cons.mp hb with rfl | hb
-          · have := hm_le a ha'
-            cases rev <;> simp [topGe, topRejects] at this hrej ⊢ <;> omega
-          · exact hge a ha' b hb
-      | false =>
-        have hacc := hrej
-        simp only [hrej, Bool.false_eq_true, if_false] at hi
-        cases hi
-        refine ⟨by simp only [List.length_append, List.length_singleton]; omega, m :: rest, ?_, ?_⟩
-        · have : (xs ++ [x]).Perm (h ++ rest ++ [x]) := List.Perm.append hperm (List.Perm.refl _)
-          refine this.trans ?_
-          have h2 : (h ++ rest ++ [x]).Perm (m :: o ++ rest ++ [x]) :=
-            List.Perm.append (List.Perm.append hp (List.Perm.refl _)) (List.Perm.refl _)
-          refine h2.trans ?_
-          have hA : (m :: o ++ rest ++ [x]).Perm (m :: (o ++ [x] ++ rest)) := by
-            have : (o ++ rest ++ [x]).Perm (o ++ [x] ++ rest) := by
-              rw [List.append_assoc, List.append_assoc]
-              exact List.Perm.append (List.Perm.refl o) List.perm_append_comm
-            exact List.Perm.cons m this
-          have hB : (m :: (o ++ [x] ++ rest)).Perm (o ++ [x] ++ m :: rest) := List.perm_middle.symm
-          exact hA.trans hB
-        · intro a ha b hb
-          have hxm : topGe rev x m := by cases rev <;> simp [topGe, topRejects] at hacc ⊢ <;> omega
-          rcases List.mem_cons.mp hb with rfl | hb
-          · rcases List.mem_append.mp ha with ha | ha
-            · exact hm_le a (hoh a ha)
-            · simp at ha; subst ha; exact hxm
-          · rcases List.mem_append.mp ha with ha | ha
-            · exact hge a (hoh a ha) b hb
-            · simp at ha; subst ha
-              have := hge m hmh b hb
-              cases rev <;> simp [topGe] at this hxm ⊢ <;> omega
-
-theorem topRun_spec (n : Nat) (rev : Bool) : ∀ (xs pre : List Int) (st : List Bool × List Int),
-    IsTopN n rev pre st.2 → ∀ {res}, topRun n rev xs st = some res → IsTopN n rev (pre ++ xs) res.2 := by
-  intro xs
-  induction xs with
-  | nil => intro pre st inv res hr; simp [topRun] at hr; subst hr; simpa using inv
-  | cons x xs ih =>
-    intro pre st inv res hr
-    simp only [topRun] at hr
-    split at hr
-    · contradiction
-    · rename_i a h' hi
-      have := ih (pre ++ [x]) _ (topInsert_spec n rev pre st.2 x inv hi) hr
-      simpa using this
-
-/-- **topn_heap_spec.** After inserting any sequence into a `TopQueue(n)` (whatever the heap's tie choices
-    in the executable model), the heap is a top-`n` selection of the inserted values and `Elements()`
-    lists it in rank order (descending for top, ascending for bottom). -/
-theorem topn_heap_spec (n : Nat) (rev : Bool) (xs : List Int) {acc : List Bool} {h : List Int}
-    (hr : topRun n rev xs ([], []) = some (acc, h)) :
-    IsTopN n rev xs h ∧ (topElements rev h).Perm h ∧ (topElements rev h).Pairwise (topGe rev) := by
-  have h0 : IsTopN n rev [] (([], []) : List Bool × List Int).2 := ⟨by simp, [], by simp, by simp⟩
-  have h1 := topRun_spec n rev xs [] ([], []) h0 hr
-  refine ⟨by simpa using h1, List.mergeSort_perm _ _, ?_⟩
-  unfold topElements
-  have := List.pairwise_mergeSort (le := fun a b => if rev then decide (a ≤ b) else decide (a ≥ b))
-    (by intro a b c; cases rev <;> simp <;> omega) (by intro a b; cases rev <;> simp <;> omega) h
-  exact this.imp (by intro a b hab; cases rev <;> simp [topGe] at hab ⊢ <;> omega)
-
-/-- `heap.Pop` on an empty heap (Go: index out of range) is reachable only with `n = 0` -/
-theorem topInsert_no_panic (n : Nat) (rev : Bool) (h : List Int) (x : Int) (hn : 0 < n) (hl : h.length ≤ n) :
-    (topInsert n rev h x).isSome = true := by
-  unfold topInsert
-  split
-  · rfl
-  · split
-    · rename_i hp
-      have := popMin_none hp
-      subst this
-      simp at *
-      omega
-    · cases topRejects rev _ x <;> rfl
-
-example : topRun 2 false [5, 1, 7, 3] ([], []) = some ([true, true, true, false], [7, 5]) := by decide
-
-
-/-! ## 5. coordinator merge + (sid, ts)-by-version de-duplication (`sortedMIterator`) -/
-
-
-theorem strictWeak_dpLt (desc : Bool) : StrictWeak (dpLt desc) where
-  irrefl := by intro a; cases desc <;> simp [dpLt]
-  trans := by intro a b c; cases desc <;> simp [dpLt] <;> omega
-  ntrans := by intro a b c; cases desc <;> simp [dpLt] <;> omega
-
-/-- what the coordinator returns for the rows `union` held by the data nodes -/
-structure MergedResult (desc : Bool) (union out : List DP) : Prop where
-  sorted : Sorted (dpLt desc) out
-  distinct : out.Pairwise (fun a b => ¬ sameKey a b)
-  newest : ∀ d ∈ out, d ∈ union ∧ ∀ e ∈ union, sameKey e d → e.ver ≤ d.ver
-  complete : ∀ e ∈ union, ∃ d ∈ out, sameKey d e
-
-theorem mem_of_pairwise_distinct {l : List DP} (h : l.Pairwise (fun a b => ¬ sameKey a b)) {a b : DP}
-    (ha : a ∈ l) (hb : b ∈ l) (hk : sameKey a b) : a = b := by
-  induction l with
-  | nil => cases ha
-  | cons x xs ih =>
-    rw [List.pairwise_cons] at h
-    rcases List.mem_cons.mp ha with rfl | ha'
-    · rcases List.mem_cons.mp hb with rfl | hb'
-      · rfl
-      · exact absurd hk (h.1 b hb')
-    · rcases List.mem_cons.mp hb with rfl | hb'
-      · exact absurd ⟨hk.1.symm, hk.2.symm⟩ (h.1 a ha')
-      · exact ih h.2 ha' hb'
-
-/-- **distributed_merge_spec.** The coordinator's k-way merge of the per-node lists (each sorted by the sort
-    key; any tie choices of the heap) followed by `sortedMIterator`'s (sid, timestamp)-by-version
-    de-duplication is sorted, holds every (sid, timestamp) of the union exactly once, and each with its
-    newest version. -/
-theorem distributed_merge_spec (desc : Bool) (nodes : List (List DP))
-    (hs : ∀ n ∈ nodes, Sorted (dpLt desc) n) {merged : List DP} (hm : Merge (dpLt desc) (initHeap nodes) merged) :
-    MergedResult desc nodes.flatten (dedupGroups [] merged) := by
-  have ⟨hp, hsorted⟩ := newItemIter_sorted (strictWeak_dpLt desc) hs hm
-  have pre : DedupPre desc [] merged := ⟨hsorted, by simp, by simp, List.Pairwise.nil⟩
-  have post := dedupGroups_spec desc merged [] pre
-  refine ⟨post.sorted, post.distinct, ?_, ?_⟩
-  · intro d hd
-    have hdm : d ∈ merged := by
-      rcases post.mem d hd with h | h
-      · cases h
-      · exact h
-    refine ⟨(hp.mem_iff).mp hdm, ?_⟩
-    intro e he hk
-    obtain ⟨x, hx, hkx, hv⟩ := post.cover e (by simpa using (hp.mem_iff).mpr he)
-    have : x = d := mem_of_pairwise_distinct post.distinct hx hd ⟨hkx.1.trans hk.1, hkx.2.trans hk.2⟩
-    subst this
-    exact hv
-  · intro e he
-    obtain ⟨x, hx, hkx, _⟩ := post.cover e (by simpa using (hp.mem_iff).mpr he)
-    exact ⟨x, hx, hkx⟩
-
-/-- … hence the result does not depend on how the rows are spread over nodes: two distributions of the same
-    rows (in particular: all rows on a single node) yield the same (sid, timestamp, version) triples. -/
-theorem distributed_eq_single_node (desc : Bool) {u₁ u₂ o₁ o₂ : List DP} (hu : u₁.Perm u₂)
-    (r₁ : MergedResult desc u₁ o₁) (r₂ : MergedResult desc u₂ o₂) :
-    ∀ d₁ ∈ o₁, ∃ d₂ ∈ o₂, sameKey d₂ d₁ ∧ d₂.ver = d₁.ver := by
-  intro d₁ h₁
-  have ⟨hm₁, hn₁⟩ := r₁.newest d₁ h₁
-  obtain ⟨d₂, h₂, hk⟩ := r₂.complete d₁ ((hu.mem_iff).mp hm₁)
-  have ⟨hm₂, hn₂⟩ := r₂.newest d₂ h₂
-  have a := hn₂ d₁ ((hu.mem_iff).mp hm₁) ⟨hk.1.symm, hk.2.symm⟩
-  have b := hn₁ d₂ ((hu.mem_iff).mpr hm₂) hk
-  exact ⟨d₂, h₂, hk, by omega⟩
-
-/-- the executable `mmerge` is such a run followed by the limit window -/
-theorem mmerge_eq (desc : Bool) (offset limit : Nat) (nodes : List (List DP)) :
-    mmerge desc offset limit nodes = window offset limit (dedupGroups [] (kmerge (dpLt desc) nodes)) ∧
-    Merge (dpLt desc) (initHeap nodes) (kmerge (dpLt desc) nodes) :=
-  ⟨limitAll_eq_window _ _ _, mergeHeap_is_Merge (strictWeak_dpLt desc) _⟩
-
-example : mmerge false 0 10 [[⟨1, 1, 1, 5⟩, ⟨3, 1, 1, 6⟩], [⟨1, 1, 2, 7⟩, ⟨2, 2, 1, 8⟩]]
-    = [⟨1, 1, 2, 7⟩, ⟨2, 2, 1, 8⟩, ⟨3, 1, 1, 6⟩] := by decide
-
-
-/-! ## 6. measure `queryResult` (order by time) -/
-
-/-- **measure_pull_sorted.** Order by time: whatever is in the heap of block cursors (each cursor in
-    timestamp order), the rows handed out by successive `Pull()` calls – one series run per call, newer versions
-    replacing older ones – come in timestamp order in the requested direction over the *whole* result. -/
-theorem measure_pull_sorted (asc : Bool) (sids : List Nat) (h : List (Cursor MRow))
-    (hs : ∀ c ∈ h, Sorted (qrLt true asc sids) c.all) (fuel : Nat) :
-    (qrPullAll (qrLt true asc sids) fuel h).flatten.Pairwise (tsLe asc) :=
-  (qrPullAll_spec asc sids fuel h hs).1
-
-
-
-/-- **measure_query_sorted.** Order by time: for every set of parts (any duplicates of (series, timestamp)
-    with any versions inside and across parts), every series selection and time range, the rows returned by
-    the successive `Pull()` calls of the measure `queryResult` are in timestamp order in the requested
-    direction over the whole result. -/
-theorem measure_query_sorted (parts : List (List MRow)) (sids : List Nat) (minTS maxTS : Int) (asc : Bool) :
-    (measureQuery parts sids minTS maxTS true asc).flatten.Pairwise (tsLe asc) := by
-  unfold measureQuery
-  refine (qrPullAll_spec asc sids _ _ ?_).1
-  apply sorted_initHeap
-  intro it hit
-  obtain ⟨b, hb, rfl⟩ := List.mem_map.mp hit
-  have hb' := (List.mem_filter.mp hb).1
-  obtain ⟨p, _, hbp⟩ := List.mem_flatMap.mp hb'
-  exact cursor_sorted asc sids (measureBlocks_rows p b hbp) _
-
-/-- three cursors of two parts, duplicates of (series 1, timestamp 5) -/
-def pullEx : List (Cursor MRow) :=
-  [(⟨1, 7, 1, 11⟩, [⟨1, 5, 1, 10⟩]), (⟨2, 6, 1, 20⟩, []), (⟨1, 5, 2, 12⟩, []), (⟨2, 8, 1, 21⟩, [])]
-
-/-- non-vacuity of the hypothesis of `qrPullAll_spec` / `measure_pull_sorted` (descending) -/
-example : (∀ c ∈ pullEx, Sorted (qrLt true false [1, 2]) c.all) ∧
-    qrPullAll (qrLt true false [1, 2]) 10 pullEx = [[⟨2, 8, 1, 21⟩], [⟨1, 7, 1, 11⟩], [⟨2, 6, 1, 20⟩], [⟨1, 5, 2, 12⟩]] := by
-  unfold Sorted
-  decide
-
-
-
-/-! ## 7. stream row-path limit over a paged source; trace multi-instance merge -/
-
-section
-variable {α : Type}
-
-theorem limitLoop_eq (target : Nat) : ∀ (ps : List (List α)) (acc : List α), (∀ p ∈ ps, p ≠ []) →
-    acc.length ≤ target → limitLoop target ps acc = (acc ++ ps.flatten).take target := by
-  intro ps
-  induction ps with
-  | nil => intro acc _ h; simp [limitLoop, List.take_of_length_le h]
-  | cons p ps ih =>
-    intro acc hne hlen
-    simp only [limitLoop]
-    split
-    · rename_i hlt
-      have hp : p ≠ [] := hne p List.mem_cons_self
-      have : p.isEmpty = false := by cases p <;> simp_all
-      simp only [this, Bool.false_eq_true, if_false]
-      rw [ih _ (fun q hq => hne q (List.mem_cons_of_mem _ hq))
-        (by simp only [List.length_append, List.length_take]; omega)]
-      simp only [List.flatten_cons]
-      by_cases hpl : p.length ≤ target - acc.length
-      · rw [List.take_of_length_le hpl, List.append_assoc]
-      · have h1 : (acc ++ p.take (target - acc.length)).length = target := by
-          simp only [List.length_append, List.length_take]; omega
-        rw [List.take_append_of_le_length (by omega), List.take_of_length_le (by omega)]
-        rw [← List.append_assoc, List.take_append_of_le_length (by simp only [List.length_append]; omega)]
-        rw [List.take_append]
-        simp only [List.take_of_length_le (Nat.le_of_lt hlt)]
-    · rename_i hge
-      have : acc.length = target := by omega
-      rw [List.take_append_of_le_length (by omega), List.take_of_length_le (by omega)]
-
-theorem take_flatten_map_take (t : Nat) : ∀ (ps : List (List α)) (s : Nat), s ≤ t →
-    ((ps.map fun p => p.take t).flatten).take s = ps.flatten.take s := by
-  intro ps
-  induction ps with
-  | nil => intro s _; rfl
-  | cons p ps ih =>
-    intro s hs
-    simp only [List.map_cons, List.flatten_cons]
-    by_cases hp : p.length ≤ t
-    · rw [List.take_of_length_le hp, List.take_append, List.take_append,
-        ih _ (by omega)]
-    · have h1 : s ≤ (p.take t).length := by simp only [List.length_take]; omega
-      rw [List.take_append_of_le_length h1, List.take_append_of_le_length (by omega), List.take_take]
-      congr 1; omega
-
-theorem flatten_filter_nonempty (ps : List (List α)) : (ps.filter fun p => !p.isEmpty).flatten = ps.flatten := by
-  induction ps with
-  | nil => rfl
-  | cons p ps ih => cases p <;> simp [ih]
-
-/-- **stream_limit_window.** The row-path `limit.Execute` of the stream plan – page accumulation loop over the
-    successive pulls of the storage result, each pull capped at `limit+offset`, empty pulls skipped – returns exactly
-    `window offset limit` of the concatenated pulls, however the ordered rows are spread over pulls. -/
-theorem stream_limit_window (offset limit : Nat) (pulls : List (List α)) :
-    streamLimit offset limit pulls = window offset limit pulls.flatten := by
-  unfold streamLimit window
-  by_cases h0 : offset + limit > 0
-  · simp only [h0, if_true]
-    rw [limitLoop_eq _ _ [] (by intro p hp; have := (List.mem_filter.mp hp).2; cases p <;> simp_all) (by simp)]
-    simp only [List.nil_append, flatten_filter_nonempty]
-    rw [take_flatten_map_take _ _ _ (Nat.le_refl _)]
-    have hlen : (pulls.flatten.take (limit + offset)).length ≤ limit + offset := by
-      simp only [List.length_take]; omega
-    split
-    · rename_i hle
-      have : (pulls.flatten.drop offset).take limit = [] := by
-        simp only [List.length_take] at hle
-        by_cases hl : limit = 0
-        · subst hl; simp
-        · have : (pulls.flatten.drop offset) = [] := by
-            apply List.length_eq_zero_iff.mp
-            simp only [List.length_drop]; omega
-          rw [this]; simp
-      rw [this]
-    · have hmin : min (offset + limit) (pulls.flatten.take (limit + offset)).length
-          = (pulls.flatten.take (limit + offset)).length := by omega
-      rw [hmin, List.take_length, List.drop_take]
-      congr 1
-      omega
-  · have ho : offset = 0 := by omega
-    have hl : limit = 0 := by omega
-    subst ho; subst hl
-    simp
-end
-
-/-- **trace_stream_merge_sorted.** Cross-instance merge of the trace index: if every sidx instance delivers its
-    stream in key order (e.g. by `sidx_query_spec`), then for every run of the merge heap (any tie choices) followed
-    by the trace-id de-duplication the emitted (key, trace id) sequence is in key order and every emitted entry is the
-    first occurrence of its trace id in that order; without shared trace ids it is a permutation of the union. -/
-theorem trace_stream_merge_sorted (asc : Bool) (streams : List (List Elem))
-    (hs : ∀ s ∈ streams, Sorted (elemLt asc) s) {merged : List Elem}
-    (hm : Merge (elemLt asc) (initHeap streams) merged) :
-    Sorted (elemLt asc) (dedupData [] merged) ∧ (dedupData [] merged).Sublist merged ∧ merged.Perm streams.flatten ∧
-    ((streams.flatten.map (·.data)).Nodup → (dedupData [] merged).Perm streams.flatten) := by
-  have ⟨hp, hsorted⟩ := newItemIter_sorted (strictWeak_elemLt asc) hs hm
-  refine ⟨List.Pairwise.sublist (dedupData_sublist _ _) hsorted, dedupData_sublist _ _, hp, ?_⟩
-  intro hnd
-  rw [dedupData_id [] merged (((hp.map _).nodup_iff).mpr hnd) (by simp)]
-  exact hp
-
-/-- the executable model is such a run, cut into batches -/
-theorem traceMergeStreams_flatten (asc : Bool) (bs : Nat) (streams : List (List Elem)) :
-    (traceMergeStreams asc bs streams).flatten = dedupData [] (kmerge (elemLt asc) streams) ∧
-    Merge (elemLt asc) (initHeap streams) (kmerge (elemLt asc) streams) :=
-  ⟨flatten_chunk _ _, mergeHeap_is_Merge (strictWeak_elemLt asc) _⟩
-
-example : traceMergeStreams true 3 [[⟨1, 10, "a"⟩, ⟨1, 30, "b"⟩], [⟨1, 20, "c"⟩, ⟨1, 40, "a"⟩]]
-    = [[⟨1, 10, "a"⟩, ⟨1, 20, "c"⟩, ⟨1, 30, "b"⟩]] := by decide
-
-
-
-/-! ## 8. `getDisjointParts`, time-ordered stream scan, measure index-mode ordered query -/
-
-section Groups
-variable {α : Type} (rg : α → Int × Int)
-
-theorem insertByLo_perm (p : α) (l : List α) : (insertByLo rg p l).Perm (p :: l) := by
-  induction l with
-  | nil => exact List.Perm.refl _
-  | cons q qs ih =>
-    simp only [insertByLo]
-    split
-    · exact List.Perm.refl _
-    · exact (List.Perm.cons q ih).trans (List.Perm.swap _ _ _)
-
-theorem sortByLo_perm (l : List α) : (sortByLo rg l).Perm l := by
-  induction l with
-  | nil => exact List.Perm.refl _
-  | cons x xs ih => exact (insertByLo_perm rg x _).trans (List.Perm.cons x ih)
-
-theorem insertByLo_sorted (p : α) {l : List α} (h : l.Pairwise (fun a b => (rg a).1 ≤ (rg b).1)) :
-    (insertByLo rg p l).Pairwise (fun a b => (rg a).1 ≤ (rg b).1) := by
-  induction l with
-  | nil => exact List.pairwise_singleton _ _
-  | cons q qs ih =>
-    simp only [insertByLo]
-    rw [List.pairwise_cons] at h
-    split
-    · rename_i hle
-      rw [List.pairwise_cons]
-      refine ⟨?_, List.pairwise_cons.mpr h⟩
-      intro b hb
-      rcases List.mem_cons.mp hb with rfl | hb
-      · exact hle
-      · exact Int.le_trans hle (h.1 b hb)
-    · rename_i hgt
-      rw [List.pairwise_cons]
-      refine ⟨?_, ih h.2⟩
-      intro b hb
-      rcases List.mem_cons.mp ((insertByLo_perm rg p qs).subset hb) with rfl | hb
-      · omega
-      · exact h.1 b hb
-
-theorem sortByLo_sorted (l : List α) : (sortByLo rg l).Pairwise (fun a b => (rg a).1 ≤ (rg b).1) := by
-  induction l with
-  | nil => exact List.Pairwise.nil
-  | cons x xs ih => exact insertByLo_sorted rg x ih
-
-/-- every part of an earlier group ends before every part of a later group starts -/
-def GroupsSeparated (gs : List (List α)) : Prop :=
-  gs.Pairwise (fun g₁ g₂ => ∀ a ∈ g₁, ∀ b ∈ g₂, (rg a).2 < (rg b).1)
-
-theorem groupParts_spec : ∀ (ps cur : List α) (b : Int), (cur ++ ps).Pairwise (fun x y => (rg x).1 ≤ (rg y).1) →
-    (∀ a ∈ cur, (rg a).2 ≤ b) →
-    (groupParts rg ps cur b).flatten = cur ++ ps ∧ GroupsSeparated rg (groupParts rg ps cur b) ∧
-    (∀ g ∈ groupParts rg ps cur b, g ≠ []) := by
-  intro ps
-  induction ps with
-  | nil =>
-    intro cur b _ _
-    cases cur with
-    | nil => simp [groupParts, GroupsSeparated]
-    | cons c cs => simp [groupParts, GroupsSeparated]
-  | cons p ps ih =>
-    intro cur b hs hb
-    cases cur with
-    | nil =>
-      simp only [groupParts]
-      have := ih [p] (rg p).2 (by simpa using hs) (by intro a ha; simp at ha; subst ha; exact Int.le_refl _)
-      simpa using this
-    | cons c cs =>
-      simp only [groupParts]
-      split
-      · rename_i hle
-        have := ih (c :: cs ++ [p]) (if (rg p).2 > b then (rg p).2 else b) (by simpa using hs) (by
-          intro a ha
-          rcases List.mem_append.mp ha with ha | ha
-          · have := hb a ha; split <;> omega
-          · simp at ha; subst ha; split <;> omega)
-        simpa using this
-      · rename_i hgt
-        have hs2 : ([p] ++ ps).Pairwise (fun x y => (rg x).1 ≤ (rg y).1) := by
-          have := (List.pairwise_append.mp hs).2.1
-          simpa using this
-        have ⟨h1, h2, h3⟩ := ih [p] (rg p).2 hs2 (by intro a ha; simp at ha; subst ha; exact Int.le_refl _)
-        refine ⟨by simp [h1], ?_, ?_⟩
-        · unfold GroupsSeparated at *
-          rw [List.pairwise_cons]
-          refine ⟨?_, h2⟩
-          intro g hg a ha y hy
-          have hy' : y ∈ p :: ps := by
-            have : y ∈ (groupParts rg ps [p] (rg p).2).flatten := List.mem_flatten.mpr ⟨g, hg, hy⟩
-            rw [h1] at this
-            simpa using this
-          have hpy : (rg p).1 ≤ (rg y).1 := by
-            rcases List.mem_cons.mp hy' with rfl | hyp
-            · exact Int.le_refl _
-            · exact (List.pairwise_cons.mp hs2).1 y hyp
-          have := hb a ha
-          omega
-        · intro g hg
-          rcases List.mem_cons.mp hg with rfl | hg
-          · simp
-          · exact h3 g hg
-
-/-- **disjoint_groups_spec.** `getDisjointParts`: the groups partition the parts; every part of an earlier group ends
-    strictly before every part of a later group starts (so groups do not overlap in time and come in time order;
-    reversed order for descending scans), whatever nesting/overlap pattern the part ranges have. -/
-theorem disjoint_groups_spec (parts : List α) (asc : Bool) :
-    (disjointGroups rg parts asc).flatten.Perm parts ∧
-    (∀ g ∈ disjointGroups rg parts asc, g ≠ []) ∧
-    GroupsSeparated rg (if asc then disjointGroups rg parts asc else (disjointGroups rg parts asc).reverse) := by
-  have ⟨h1, h2, h3⟩ := groupParts_spec rg (sortByLo rg parts) [] 0 (by simpa using sortByLo_sorted rg parts) (by simp)
-  unfold disjointGroups
-  cases asc with
-  | true =>
-    simp only [if_true]
-    exact ⟨by rw [h1]; simpa using sortByLo_perm rg parts, h3, h2⟩
-  | false =>
-    simp only [Bool.false_eq_true, if_false, List.reverse_reverse]
-    refine ⟨?_, fun g hg => h3 g (List.mem_reverse.mp hg), h2⟩
-    have : (groupParts rg (sortByLo rg parts) [] 0).reverse.flatten.Perm (groupParts rg (sortByLo rg parts) [] 0).flatten := by
-      rw [← List.flatMap_id, ← List.flatMap_id]
-      exact List.Perm.flatMap_right _ (List.reverse_perm _)
-    exact this.trans (by rw [h1]; simpa using sortByLo_perm rg parts)
-end Groups
-
-/-- nesting: the input of the seeded change n3 – a wide part, a part nested in it, a part overlapping only the wide
-    one – plus a later part, descending -/
-example : disjointGroups TRange.rg [⟨1, 1, 100⟩, ⟨2, 10, 20⟩, ⟨3, 50, 60⟩, ⟨4, 200, 300⟩] false
-    = [[⟨4, 200, 300⟩], [⟨1, 1, 100⟩, ⟨2, 10, 20⟩, ⟨3, 50, 60⟩]] := by decide
-
-def intOrd (asc : Bool) (a b : Int) : Prop := if asc then a ≤ b else b ≤ a
-
-theorem intLe_iff (asc : Bool) (a b : Int) : intLe asc a b = true ↔ intOrd asc a b := by
-  cases asc <;> simp [intLe, intOrd]
-
-theorem intOrd_total (asc : Bool) (a b : Int) : ¬ intOrd asc a b → intOrd asc b a := by
-  cases asc <;> simp [intOrd] <;> omega
-
-theorem intOrd_trans {asc : Bool} {a b c : Int} (h1 : intOrd asc a b) (h2 : intOrd asc b c) : intOrd asc a c := by
-  cases asc <;> simp [intOrd] at * <;> omega
-
-theorem insertInt_mem {asc : Bool} {x y : Int} {l : List Int} (h : y ∈ insertInt asc x l) : y = x ∨ y ∈ l := by
-  induction l with
-  | nil => simp [insertInt] at h; exact Or.inl h
-  | cons z zs ih =>
-    simp only [insertInt] at h
-    split at h
-    · rcases List.mem_cons.mp h with rfl | h
-      · exact Or.inl rfl
-      · exact Or.inr h
-    · rcases List.mem_cons.mp h with rfl | h
-      · exact Or.inr List.mem_cons_self
-      · rcases ih h with h | h
-        · exact Or.inl h
-        · exact Or.inr (List.mem_cons_of_mem _ h)
-
-theorem insertInt_sorted (asc : Bool) (x : Int) {l : List Int} (h : l.Pairwise (intOrd asc)) :
-    (insertInt asc x l).Pairwise (intOrd asc) := by
-  induction l with
-  | nil => exact List.pairwise_singleton _ _
-  | cons z zs ih =>
-    rw [List.pairwise_cons] at h
-    simp only [insertInt]
-    split
-    · rename_i hle
-      have hle' := (intLe_iff asc x z).mp hle
-      rw [List.pairwise_cons]
-      refine ⟨?_, List.pairwise_cons.mpr h⟩
-      intro b hb
-      rcases List.mem_cons.mp hb with rfl | hb
-      · exact hle'
-      · exact intOrd_trans hle' (h.1 b hb)
-    · rename_i hgt
-      have hzx : intOrd asc z x := intOrd_total asc x z (fun h' => hgt ((intLe_iff asc x z).mpr h'))
-      rw [List.pairwise_cons]
-      refine ⟨?_, ih h.2⟩
-      intro b hb
-      rcases insertInt_mem hb with rfl | hb
-      · exact hzx
-      · exact h.1 b hb
-
-theorem sortInts_sorted (asc : Bool) (l : List Int) : (sortInts asc l).Pairwise (intOrd asc) := by
-  induction l with
-  | nil => exact List.Pairwise.nil
-  | cons x xs ih => exact insertInt_sorted asc x ih
-
-theorem sortInts_mem {asc : Bool} {l : List Int} {y : Int} (h : y ∈ sortInts asc l) : y ∈ l := by
-  induction l with
-  | nil => simp [sortInts] at h
-  | cons x xs ih =>
-    rcases insertInt_mem (l := sortInts asc xs) h with rfl | h
-    · exact List.mem_cons_self
-    · exact List.mem_cons_of_mem _ (ih h)
-
-theorem spart_range (p : SPart) {r : Nat × Int} (hr : r ∈ p.rows) : p.rg.1 ≤ r.2 ∧ r.2 ≤ p.rg.2 :=
-  ⟨(foldl_min_le _ _).2 _ (List.mem_map_of_mem hr), (foldl_max_ge _ _).2 _ (List.mem_map_of_mem hr)⟩
-
-/-- **stream_ts_query_sorted.** Time-ordered scan of one segment (with the group order of fix F91): for any parts –
-    nested, overlapping or disjoint time ranges –, any series selection and time range, the timestamps of the
-    concatenated pages are globally ordered in the requested direction. -/
-theorem stream_ts_query_sorted (parts : List SPart) (sids : List Nat) (minTS maxTS : Int) (asc : Bool) :
-    (streamTsQuery parts sids minTS maxTS asc).Pairwise (intOrd asc) := by
-  unfold streamTsQuery streamScan
-  simp only [Bool.false_and, Bool.false_eq_true, if_false]
-  generalize (parts.filter fun p => !(decide (maxTS < p.rg.1) || decide (minTS > p.rg.2))) = sel
-  have ⟨_, _, hsep⟩ := disjoint_groups_spec SPart.rg sel asc
-  generalize disjointGroups SPart.rg sel asc = gs at hsep
-  have hmem : ∀ (g : List SPart), ∀ y ∈ sortInts asc (g.flatMap fun p =>
-      (p.rows.filter fun r => sids.contains r.1 && decide (minTS ≤ r.2) && decide (r.2 ≤ maxTS)).map (·.2)),
-      ∃ p ∈ g, p.rg.1 ≤ y ∧ y ≤ p.rg.2 := by
-    intro g y hy
-    obtain ⟨p, hp, hyp⟩ := List.mem_flatMap.mp (sortInts_mem hy)
-    obtain ⟨row, hrow, rfl⟩ := List.mem_map.mp hyp
-    exact ⟨p, hp, spart_range p (List.mem_filter.mp hrow).1⟩
-  rw [List.flatMap_def, List.pairwise_flatten]
-  refine ⟨?_, ?_⟩
-  · intro l hl
-    obtain ⟨g, _, rfl⟩ := List.mem_map.mp hl
-    exact sortInts_sorted asc _
-  · rw [List.pairwise_map]
-    cases asc with
-    | true =>
-      simp only [if_true] at hsep
-      refine hsep.imp ?_
-      intro g1 g2 h12 x hx y hy
-      obtain ⟨p, hp, hp1, hp2⟩ := hmem g1 x hx
-      obtain ⟨q, hq, hq1, hq2⟩ := hmem g2 y hy
-      have := h12 p hp q hq
-      simp only [intOrd, if_true]; omega
-    | false =>
-      simp only [Bool.false_eq_true, if_false] at hsep
-      unfold GroupsSeparated at hsep
-      rw [List.pairwise_reverse] at hsep
-      refine hsep.imp ?_
-      intro g1 g2 h12 x hx y hy
-      obtain ⟨p, hp, hp1, hp2⟩ := hmem g1 x hx
-      obtain ⟨q, hq, hq1, hq2⟩ := hmem g2 y hy
-      have := h12 q hq p hp
-      simp only [intOrd, Bool.false_eq_true, if_false]; omega
-
-/-- F91: `blockScanner.scan` as found (descending: last group of the already reversed list first) on two disjoint
-    parts [1,2] and [10,11] yields 2 1 11 10; with the group order fixed 11 10 2 1. (Reproduced on the real code:
-    `squery desc 0 1000 100 1 1:1,1:2|1:10,1:11` → `2,1,11,10`.) -/
-theorem stream_ts_query_legacy_counterexample :
-    streamTsQuery_legacy [⟨1, [(1, 1), (1, 2)]⟩, ⟨2, [(1, 10), (1, 11)]⟩] [1] 0 1000 false = [2, 1, 11, 10] ∧
-    streamTsQuery [⟨1, [(1, 1), (1, 2)]⟩, ⟨2, [(1, 10), (1, 11)]⟩] [1] 0 1000 false = [11, 10, 2, 1] := by decide
-
-
-
-theorem strictWeak_kvLt (desc : Bool) : StrictWeak (kvLt desc) := by
-  have : kvLt desc = fun a b => intLt (!desc) a.2 b.2 := by
-    funext a b; cases desc <;> simp [kvLt, intLt]
-  rw [this]
-  exact (strictTotal_intLt _).toStrictWeak.comap (fun x : String × Int => x.2)
-
-theorem keepUnseen_sublist : ∀ (seg : List (String × Int)) (seen : List String), (keepUnseen seen seg).1.Sublist seg := by
-  intro seg
-  induction seg with
-  | nil => intro seen; exact List.Sublist.refl _
-  | cons x xs ih =>
-    intro seen
-    simp only [keepUnseen]
-    split
-    · exact (ih seen).cons x
-    · exact (ih _).cons_cons x
-
-/-- what `keepUnseen` keeps is new, pairwise distinct, and recorded in the filter -/
-theorem keepUnseen_spec : ∀ (seg : List (String × Int)) (seen : List String),
-    (∀ e ∈ (keepUnseen seen seg).1, e.1 ∉ seen) ∧ ((keepUnseen seen seg).1.map (·.1)).Nodup ∧
-    (∀ n, n ∈ (keepUnseen seen seg).2 ↔ n ∈ seen ∨ n ∈ (keepUnseen seen seg).1.map (·.1)) ∧
-    (∀ e ∈ seg, e.1 ∈ (keepUnseen seen seg).2) := by
-  intro seg
-  induction seg with
-  | nil => intro seen; simp [keepUnseen]
-  | cons x xs ih =>
-    intro seen
-    simp only [keepUnseen]
-    split
-    · rename_i hc
-      have ⟨h1, h2, h3, h4⟩ := ih seen
-      refine ⟨h1, h2, h3, ?_⟩
-      intro e he
-      rcases List.mem_cons.mp he with rfl | he
-      · exact (h3 _).mpr (Or.inl (by simpa using hc))
-      · exact h4 e he
-    · rename_i hc
-      have hx : x.1 ∉ seen := by simpa using hc
-      have ⟨h1, h2, h3, h4⟩ := ih (x.1 :: seen)
-      refine ⟨?_, ?_, ?_, ?_⟩
-      · intro e he
-        rcases List.mem_cons.mp he with rfl | he
-        · exact hx
-        · exact fun hs => h1 e he (List.mem_cons_of_mem _ hs)
-      · simp only [List.map_cons, List.nodup_cons]
-        refine ⟨?_, h2⟩
-        intro hm
-        obtain ⟨e, he, hex⟩ := List.mem_map.mp hm
-        exact h1 e he (hex ▸ List.mem_cons_self)
-      · intro n
-        rw [h3 n]
-        simp only [List.mem_cons, List.map_cons]
-        constructor
-        · rintro ((rfl | h) | h)
-          · exact Or.inr (Or.inl rfl)
-          · exact Or.inl h
-          · exact Or.inr (Or.inr h)
-        · rintro (h | rfl | h)
-          · exact Or.inl (Or.inr h)
-          · exact Or.inl (Or.inl rfl)
-          · exact Or.inr h
-      · intro e he
-        rcases List.mem_cons.mp he with rfl | he
-        · exact (h3 _).mpr (Or.inl List.mem_cons_self)
-        · exact h4 e he
-
-theorem dropSeen_spec : ∀ (segs : List (List (String × Int))) (seen : List String),
-    (∀ l ∈ dropSeen seen segs, ∃ seg ∈ segs, l.Sublist seg) ∧
-    (((dropSeen seen segs).flatten).map (·.1)).Nodup ∧
-    (∀ e ∈ (dropSeen seen segs).flatten, e.1 ∉ seen) ∧
-    (∀ seg ∈ segs, ∀ e ∈ seg, e.1 ∈ seen ∨ e.1 ∈ ((dropSeen seen segs).flatten).map (·.1)) := by
-  intro segs
-  induction segs with
-  | nil => intro seen; simp [dropSeen]
-  | cons seg rest ih =>
-    intro seen
-    simp only [dropSeen]
-    have ⟨k1, k2, k3, k4⟩ := keepUnseen_spec seg seen
-    have ⟨i1, i2, i3, i4⟩ := ih (keepUnseen seen seg).2
-    refine ⟨?_, ?_, ?_, ?_⟩
-    · intro l hl
-      rcases List.mem_cons.mp hl with rfl | hl
-      · exact ⟨seg, List.mem_cons_self, keepUnseen_sublist seg seen⟩
-      · obtain ⟨s, hs, hsub⟩ := i1 l hl
-        exact ⟨s, List.mem_cons_of_mem _ hs, hsub⟩
-    · simp only [List.flatten_cons, List.map_append]
-      rw [List.nodup_append]
-      refine ⟨k2, i2, ?_⟩
-      intro a ha b hb hab
-      subst hab
-      obtain ⟨e, he, rfl⟩ := List.mem_map.mp hb
-      exact i3 e he ((k3 _).mpr (Or.inr ha))
-    · intro e he
-      simp only [List.flatten_cons] at he
-      rcases List.mem_append.mp he with he | he
-      · exact k1 e he
-      · exact fun hs => i3 e he ((k3 _).mpr (Or.inl hs))
-    · intro s hs e he
-      simp only [List.flatten_cons, List.map_append, List.mem_append]
-      rcases List.mem_cons.mp hs with rfl | hs
-      · rcases (k3 e.1).mp (k4 e he) with h | h
-        · exact Or.inl h
-        · exact Or.inr (Or.inl h)
-      · rcases i4 s hs e he with h | h
-        · rcases (k3 e.1).mp h with h | h
-          · exact Or.inl h
-          · exact Or.inr (Or.inl h)
-        · exact Or.inr (Or.inr h)
-
-theorem insertKV_mem {desc : Bool} {x y : String × Int} {l : List (String × Int)} (h : y ∈ insertKV desc x l) :
-    y = x ∨ y ∈ l := by
-  induction l with
-  | nil => simp [insertKV] at h; exact Or.inl h
-  | cons z zs ih =>
-    simp only [insertKV] at h
-    split at h
-    · rcases List.mem_cons.mp h with rfl | h
-      · exact Or.inl rfl
-      · exact Or.inr h
-    · rcases List.mem_cons.mp h with rfl | h
-      · exact Or.inr List.mem_cons_self
-      · rcases ih h with h | h
-        · exact Or.inl h
-        · exact Or.inr (List.mem_cons_of_mem _ h)
-
-theorem insertKV_sorted (desc : Bool) (x : String × Int) {l : List (String × Int)}
-    (h : l.Pairwise (fun a b => intOrd (!desc) a.2 b.2)) :
-    (insertKV desc x l).Pairwise (fun a b => intOrd (!desc) a.2 b.2) := by
-  induction l with
-  | nil => exact List.pairwise_singleton _ _
-  | cons z zs ih =>
-    rw [List.pairwise_cons] at h
-    simp only [insertKV]
-    split
-    · rename_i hle
-      have hle' := (intLe_iff (!desc) x.2 z.2).mp hle
-      rw [List.pairwise_cons]
-      refine ⟨?_, List.pairwise_cons.mpr h⟩
-      intro b hb
-      rcases List.mem_cons.mp hb with rfl | hb
-      · exact hle'
-      · exact intOrd_trans hle' (h.1 b hb)
-    · rename_i hgt
-      have hzx : intOrd (!desc) z.2 x.2 := intOrd_total _ x.2 z.2 (fun h' => hgt ((intLe_iff _ x.2 z.2).mpr h'))
-      rw [List.pairwise_cons]
-      refine ⟨?_, ih h.2⟩
-      intro b hb
-      rcases insertKV_mem hb with rfl | hb
-      · exact hzx
-      · exact h.1 b hb
-
-theorem sortKV_sorted (desc : Bool) (l : List (String × Int)) : Sorted (kvLt desc) (sortKV desc l) := by
-  have : (sortKV desc l).Pairwise (fun a b => intOrd (!desc) a.2 b.2) := by
-    induction l with
-    | nil => exact List.Pairwise.nil
-    | cons x xs ih => exact insertKV_sorted desc x ih
-  unfold Sorted
-  exact this.imp (by intro a b h; cases desc <;> simp [kvLt, intOrd] at h ⊢ <;> omega)
-
-theorem sortKV_perm (desc : Bool) (l : List (String × Int)) : (sortKV desc l).Perm l := by
-  induction l with
-  | nil => exact List.Perm.refl _
-  | cons x xs ih =>
-    have : ∀ (l : List (String × Int)), (insertKV desc x l).Perm (x :: l) := by
-      intro l
-      induction l with
-      | nil => exact List.Perm.refl _
-      | cons q qs ih2 =>
-        simp only [insertKV]
-        split
-        · exact List.Perm.refl _
-        · exact (List.Perm.cons q ih2).trans (List.Perm.swap _ _ _)
-    exact (this _).trans (List.Perm.cons x ih)
-
-/-- **index_sort_query_spec.** Index-mode measure query ordered by an indexed tag over any number of segments (series
-    shared between segments in any pattern): the merged result is in sort-key order in the requested direction, no
-    series is returned twice, and every series of every segment is returned. -/
-theorem index_sort_query_spec (desc : Bool) (segs : List (List (String × Int))) :
-    Sorted (kvLt desc) (indexSortQuery desc segs) ∧
-    ((indexSortQuery desc segs).map (·.1)).Nodup ∧
-    (∀ seg ∈ segs, ∀ e ∈ seg, e.1 ∈ (indexSortQuery desc segs).map (·.1)) := by
-  unfold indexSortQuery
-  have sw := strictWeak_kvLt desc
-  have ⟨d1, d2, _, d4⟩ := dropSeen_spec (segs.map (sortKV desc)) []
-  have hsorted : ∀ it ∈ dropSeen [] (segs.map (sortKV desc)), Sorted (kvLt desc) it := by
-    intro it hit
-    obtain ⟨s, hs, hsub⟩ := d1 it hit
-    obtain ⟨seg, _, rfl⟩ := List.mem_map.mp hs
-    exact List.Pairwise.sublist hsub (sortKV_sorted desc seg)
-  have ⟨hp, hs⟩ := kmerge_sorted sw hsorted
-  refine ⟨hs, ((hp.map _).nodup_iff).mpr d2, ?_⟩
-  intro seg hseg e he
-  have := d4 (sortKV desc seg) (List.mem_map_of_mem hseg) e ((sortKV_perm desc seg).mem_iff.mpr he)
-  rcases this with h | h
-  · cases h
-  · exact ((hp.map _).mem_iff).mpr h
-
-/-- the input of the seeded change n2 (segments {b,e,f} and {a,b,c,d,f}) -/
-example : (indexSortQuery false [[("b", 20), ("e", 35), ("f", 50)], [("a", 10), ("b", 20), ("c", 30), ("d", 40), ("f", 50)]]).map (·.1)
-    = ["a", "b", "c", "e", "d", "f"] := by decide
-
-
 end Banyan.C09
